@@ -390,9 +390,19 @@ pub fn run_group(g: &dyn Group, ctx: &Ctx, rng: &mut Rng, corpus: &[String], onl
         // minimised past failures first
         let pfx = format!("{}.", g.name());
         lines.extend(corpus.iter().filter(|l| l.starts_with(&pfx) || l.starts_with(g.name())).cloned());
-        lines.extend(g.generate(ctx, rng));
     }
     let mut res = GroupResult { name: g.name().into(), rule: g.rule().into(), ..Default::default() };
+    if only.is_none() {
+        // generators build their cases with kvarn's own encoders here and there: a panic in one of them is a finding, not a
+        // reason for the whole run to end without a result
+        match std::panic::catch_unwind(std::panic::AssertUnwindSafe(|| g.generate(ctx, rng))) {
+            Ok(l) => lines.extend(l),
+            Err(e) => {
+                let msg = e.downcast_ref::<String>().cloned().or_else(|| e.downcast_ref::<&str>().map(|s| (*s).to_owned())).unwrap_or_default();
+                res.oracle_failures.push(serde_json::json!({"group": g.name(), "line": "<generate>", "impl": "panic", "key": format!("panic:generate:{}", g.name()), "what": format!("kvarn code called while the cases of {} were generated panicked: {msg}", g.name())}));
+            }
+        }
+    }
     let mut distinct = BTreeSet::new();
     // adaptive chunks: start small, grow while a chunk takes less than a few seconds
     let mut chunk = if g.parallel() { 512 } else { 8 };
